@@ -201,7 +201,8 @@ def tree_case(item):
     res = {"item": item, "problems": [], "n": 0}
     K = len(s[0])
     n_in = sum(len(b) for b, _ in s[0])
-    for alpha0, alpha1 in ((1.0, 2.7), (0.3, 0.011)):
+    # the new value may be anything the sampler can return, down to its floor of 1e-10
+    for alpha0, alpha1 in ((1.0, 2.7), (0.3, 0.011), (1.0, 1e-10), (0.5, 5e-9), (2.0, 350.0)):
         td = TreeJointDistribution(FSCRPDistribution(alpha0))
         tree = oracle.build(s, data)
         tree.relabel_nodes()
@@ -253,7 +254,7 @@ def main(tier, seed):
     chk.rule = ("(a) a,b in {0.01,1,3} x alpha in {1e-3,0.5,1,7} x all 1<=K<=n<=6: ALL executions of GammaPriorConcentrationSampler.sample under the enumerating "
                 "generator (eta and the gamma draw over a 7-point quantile alphabet, both Bernoulli outcomes); the recorded law parameters must be Beta(alpha+1,n), "
                 "Bernoulli(pi_eta), Gamma(a+K-1+z)/(b-log eta); (a') every sequence of 2-3 (4) chained updates by ONE sampler object over 6 (K,n) steps incl. K=0 (deviation bound 1 under 2 (4) policies): "
-                "each call's draws have the law parameters of the current value; (b) every tree over n<=4 data points incl. outliers x two (old,new) alpha pairs: K, n extraction, "
+                "each call's draws have the law parameters of the current value; (b) every tree over n<=4 data points incl. outliers x five (old,new) alpha pairs incl. the 1e-10 floor: K, n extraction, "
                 "stored value, densities and proposals at the new value; non-trivial = every case")
     chk.assumptions = ["continuous draws are represented by 7 quantiles each: the law parameters are checked exactly, the value of the draw only at those quantiles",
                        "that the Escobar-West mixture leaves p(alpha|K,n) invariant is mathematics about the reference model, side-checked by quadrature"]
